@@ -63,6 +63,7 @@ def _tlc_jobs(jobs):
     def work(name, kw):
         try:
             out[name] = vlib.tlc_emit(**kw)
+            out[name].pop("out", None)          # tens of MB of TLC output per job: only the parsed values are needed
         except Exception as e:       # ToolError included
             errs[name] = e
     ths = [threading.Thread(target=work, args=(n, kw)) for n, kw in jobs.items()]
